@@ -5,6 +5,7 @@ import (
 	"encoding/hex"
 	"fmt"
 	"net"
+	"strings"
 
 	"github.com/gopacket/gopacket"
 	"github.com/gopacket/gopacket/layers"
@@ -258,7 +259,7 @@ func c08Serialize(c *vlib.Ctx, ls ...gopacket.SerializableLayer) []byte {
 	return append([]byte{}, buf.Bytes()...)
 }
 
-var c08Protos = []string{"ip4hdr", "tcp4", "tcp6", "udp4", "udp6", "icmp4", "icmp6", "gre", "grekeyseq"}
+var c08Protos = []string{"ip4hdr", "tcp4", "tcp6", "udp4", "udp6", "icmp4", "icmp6", "gre", "grekeyseq", "greroute-odd", "greroute-even"}
 
 // c08Build builds one packet of the named protocol with the given payload via gopacket's serializers.
 func c08Build(c *vlib.Ctx, r *vlib.Rand, proto string, payload []byte, id int) *c08Built {
@@ -362,10 +363,26 @@ func c08Build(c *vlib.Ctx, r *vlib.Rand, proto string, payload []byte, id int) *
 		if b.bytes != nil {
 			b.pseudo = v6pseudo(58, len(b.bytes)-40)
 		}
-	case "gre", "grekeyseq":
+	case "gre", "grekeyseq", "greroute-odd", "greroute-even":
 		g := &layers.GRE{ChecksumPresent: true, Protocol: layers.EthernetType(0x88b5)}
 		if proto == "grekeyseq" {
 			g.KeyPresent, g.SeqPresent, g.Key, g.Seq = true, true, r.U32(), r.U32()
+		}
+		if strings.HasPrefix(proto, "greroute") {
+			// source route entries: the header has an odd number of bytes when the routing information has, so the
+			// payload then starts in the middle of a 16-bit word of the checksum
+			n := 2 * r.Range(1, 4)
+			if proto == "greroute-odd" {
+				n--
+			}
+			info := r.Bytes(n)
+			g.RoutingPresent = true
+			g.GRERouting = &layers.GRERouting{AddressFamily: uint16(r.Range(1, 0x900)), SREOffset: uint8(r.Intn(n)), SRELength: uint8(n), RoutingInformation: info}
+			if r.Bool() {
+				m := 2 * r.Range(1, 3)
+				g.GRERouting.Next = &layers.GRERouting{AddressFamily: uint16(r.Range(1, 0x900)), SRELength: uint8(m), RoutingInformation: r.Bytes(m)}
+			}
+			g.KeyPresent, g.Key = r.Bool(), r.U32()
 		}
 		ip4.Protocol = layers.IPProtocolGRE
 		b.bytes = c08Serialize(c, ip4, g, pl)
@@ -417,12 +434,14 @@ func (b *c08Built) verify(bytes []byte) (res gopacket.ChecksumVerificationResult
 
 func c08Proto(c *vlib.Ctx) {
 	idx := 0
-	steerStep := c.Pick(4, 1)
+	steerStep := 1
+	fams := c.Pick(1, 6)
 	for pi, proto := range c08Protos {
-		// (a) steering: one packet family per (proto, parity) walked through the 16-bit compensation word
-		for parity := 0; parity < 2; parity++ {
+		// (a) steering: packet families per (proto, parity) walked through the whole 16-bit compensation word
+		for pf := 0; pf < 2*fams; pf++ {
+			parity := pf % 2
 			idx++
-			if (pi*2+parity)%c.NBatch != c.Batch || !c.Begin(idx) {
+			if (pi*2*fams+pf)%c.NBatch != c.Batch || !c.Begin(idx) {
 				continue
 			}
 			r := c.Rand(uint64(idx))
